@@ -196,6 +196,44 @@ theorem holds_model_history_partial (rs : List ReqAct) (ss : List RespAct)
 example : holds (reqHistory [.modHdr [("x", "1")], .noop, .modReq [("x", "2")] "h" "/p" "" "b"] ++
     respHistory [.retry [("x", "1")], .modResp [] "b" 200]) = true := by decide
 
+/-- Fold SITE (`getSPOEReqActions`): only the variables are visible; what they decode to obeys
+    the rule for the actions handed in — when no input header map is in class F07a. -/
+theorem req_site_holds_partial (as : List ReqAct) (hs : f07aClass (as.flatMap (·.hdrs)) = false) :
+    reqSiteHolds as (encodeReq (foldReq as)) = true := by
+  have hsafe : hdrsSafe (foldReq as).hdrs = true := foldReq_safe as (by simpa [f07aClass] using hs)
+  unfold reqSiteHolds
+  rw [decodeReq_encodeReq _ hsafe]
+  exact reqFoldOk_eraseRm as _ (req_fold_ok as)
+
+theorem req_site_holds_violation_witness :
+    ∃ as : List ReqAct, reqSiteHolds as (encodeReq (foldReq as)) ≠ true := by
+  refine ⟨[.modHdr [("x", "1")], .modReq [("a", "1\nx:2")] "" "" "" ""], ?_⟩
+  decide
+
+/-- Fold SITE (`getSPOERespActions`), same. -/
+theorem resp_site_holds_partial (as : List RespAct) (hs : f07aClass (as.flatMap (·.hdrs)) = false) :
+    respSiteHolds as (encodeResp (foldResp as)) = true := by
+  have hsafe : hdrsSafe (foldResp as).hdrs = true := foldResp_safe as (by simpa [f07aClass] using hs)
+  unfold respSiteHolds
+  rw [decodeResp_encodeResp _ hsafe]
+  exact respRuleOk_foldResp as
+
+theorem resp_site_holds_violation_witness :
+    ∃ as : List RespAct, respSiteHolds as (encodeResp (foldResp as)) ≠ true := by
+  refine ⟨[.retry [("k", "v")], .retry [("a:b", "c")]], ?_⟩
+  decide
+
+/-- The judge predicate is true of the site observations of every model run on F07a-free inputs. -/
+theorem holds_site_history_partial (rs : List ReqAct) (ss : List RespAct)
+    (hr : f07aClass (rs.flatMap (·.hdrs)) = false) (hsafe : f07aClass (ss.flatMap (·.hdrs)) = false) :
+    holds [.reqSite rs (encodeReq (foldReq rs)), .respSite ss (encodeResp (foldResp ss))] = true := by
+  simp [holds, Obs.holds, req_site_holds_partial rs hr, resp_site_holds_partial ss hsafe]
+
+example : holds [.reqSite [.genReq [("x", "1")] ["r"] "g", .modHdr [("x", "2"), ("y", "Y")]]
+      (encodeReq (foldReq [.genReq [("x", "1")] ["r"] "g", .modHdr [("x", "2"), ("y", "Y")]])),
+    .respSite [.modResp [("x", "1")] "b" 200, .noop] (encodeResp (foldResp [.modResp [("x", "1")] "b" 200, .noop]))] = true := by
+  decide
+
 /-! ## Object level: the fold on pointers agrees with the fold on values unless an object repeats -/
 
 /-- Folding the objects named `ns` (pairwise distinct: outside F07b) whose current values are
